@@ -11,7 +11,7 @@
 from fractions import Fraction
 
 from .. import gen
-from ..common import cnat, cz, cq, cbool, clist, coq_eval
+from ..common import cnat, cz, cq, cbool, clist, safe_coq_eval
 from ..impl import Impl
 
 IMPORTS = ['Base.Util', 'Model.Clustering']
@@ -162,6 +162,13 @@ def same_partition(a, b):
     return len(a) == len(b) and len(set(zip(a, b))) == len(set(a)) == len(set(b))
 
 
+def model_vals(ctx, tag, exprs):
+    """Model values, one per expression; a list of None when the model no longer evaluates (recorded in ctx.proof_broken by
+    safe_coq_eval): the callers then skip the model comparison of the case and keep the independent statement ('spec' checks)."""
+    vals = safe_coq_eval(ctx, tag, IMPORTS, exprs)
+    return vals if vals is not None else [None] * len(exprs)
+
+
 def argsort_contract(keys, perm):
     return sorted(perm) == list(range(len(keys))) and all(keys[p] <= keys[q] for p, q in zip(perm, perm[1:]))
 
@@ -190,9 +197,9 @@ def part_standalone(ctx, impl, rng, quick):
         # the contract is checked against the keys the MODEL hands to argsort (so a change of the sort key is seen too)
         exprs.append('(argsort_ok_b (map (fun c => (- Z.of_nat c)%%Z) (unique_counts %s)) %s, reindex_labels (fun _ => %s) %s)' %
                      (zlist(lab), nlist(call['perm']), nlist(call['perm']), zlist(lab)))
-    vals = coq_eval('c05reindex', IMPORTS, exprs)
+    vals = model_vals(ctx, 'c05reindex', exprs)
     for (lab, o), v in zip(cases, vals):
-        ok_contract, model = v
+        ok_contract, model = v if v is not None else (True, None)
         call = o['argsort'][0]
         if not argsort_contract(call['keys'], call['perm']):
             ctx.violation('np.argsort', 'oracle answer outside its contract (not a sorting permutation)', case=call, check='oracle_contract')
@@ -201,7 +208,7 @@ def part_standalone(ctx, impl, rng, quick):
             ctx.violation('reindex_labels', 'np.argsort is not applied to the negated cluster sizes the model expects', case={'labels': lab},
                           observed=call, check='correspondence')
             continue
-        if list(model) != o['out']:
+        if model is not None and list(model) != o['out']:
             ctx.violation('reindex_labels', 'implementation differs from the model', case={'labels': lab}, expected=list(model),
                           observed=o['out'], check='correspondence')
         out = o['out']
@@ -220,11 +227,11 @@ def part_standalone(ctx, impl, rng, quick):
         ctx.traces += 1
         ctx.count('unique_inverse', ('uinv', lab), len(set(lab)) >= 2)
         cases.append((lab, r))
-    vals = coq_eval('c05uinv', IMPORTS, ['snd (unique_inverse %s)' % zlist(lab) for lab, _ in cases])
+    vals = model_vals(ctx, 'c05uinv', ['snd (unique_inverse %s)' % zlist(lab) for lab, _ in cases])
     for (lab, r), v in zip(cases, vals):
-        if 'ok' not in r or r['ok']['inverse'] != list(v):
-            ctx.violation('np.unique', 'return_inverse differs from the model', case={'labels': lab}, expected=list(v), observed=r,
-                          check='correspondence')
+        if 'ok' not in r or (v is not None and r['ok']['inverse'] != list(v)):
+            ctx.violation('np.unique', 'return_inverse differs from the model', case={'labels': lab},
+                          expected=list(v) if v is not None else None, observed=r, check='correspondence')
         elif not (same_partition(r['ok']['inverse'], lab) and is_contiguous(r['ok']['inverse'])):
             ctx.violation('np.unique', 'compaction is not the same partition on 0..k-1', case={'labels': lab}, observed=r, check='spec')
     # --- get_membership
@@ -243,10 +250,12 @@ def part_standalone(ctx, impl, rng, quick):
         ctx.traces += 1
         ctx.count('get_membership', ('memb', lab, nl), len(lab) > 0)
         cases.append((lab, nl, r))
-    vals = coq_eval('c05memb', IMPORTS, ['get_membership_red %s %s' % (zlist(lab), 'None' if nl is None else '(Some %d)' % nl)
-                                         for lab, nl, _ in cases])
+    vals = model_vals(ctx, 'c05memb', ['get_membership_red %s %s' % (zlist(lab), 'None' if nl is None else '(Some %d)' % nl)
+                                       for lab, nl, _ in cases])
     for (lab, nl, r), v in zip(cases, vals):
-        if v[0] == 'Err':
+        if v is None:
+            exp = got = None       # model dead: only the independent statement on a returned matrix
+        elif v[0] == 'Err':
             exp = {'err': err_kind(v)}
             got = {'err': r.get('err')} if 'err' in r else r
         else:
@@ -257,7 +266,7 @@ def part_standalone(ctx, impl, rng, quick):
             ctx.violation('get_membership', 'implementation differs from the model', case={'labels': lab, 'n_labels': nl},
                           expected=exp, observed=got, check='correspondence')
         elif 'ok' in r:
-            rows_ok = all(sum(row) == (1 if l >= 0 else 0) and (l < 0 or row[l] == 1) for l, row in zip(lab, r['ok']['data']))
+            rows_ok = all(sum(row) == (1 if l >= 0 else 0) and (l < 0 or (l < len(row) and row[l] == 1)) for l, row in zip(lab, r['ok']['data']))
             if not rows_ok:
                 ctx.violation('get_membership', 'rows are not one-hot / null for negative labels', case={'labels': lab, 'n_labels': nl},
                               observed=r['ok'], check='spec')
@@ -302,16 +311,16 @@ def part_post(ctx, impl, rng, quick):
         exprs.append('(argsort_ok_b %s %s, post_processing (fun _ => %s) %s %s %s %s)' %
                      (keys, nlist(perm), nlist(perm), cbool(args['sort_clusters']), cbool(args['shuffle_nodes']),
                       nlist(args['index']), nlist(args['raw'])))
-    vals = coq_eval('c05post', IMPORTS, exprs)
+    vals = model_vals(ctx, 'c05post', exprs)
     sec = []
     for (args, o, nr, nc, t, bip), v in zip(cases, vals):
-        okc, model = v
+        okc, model = v if v is not None else (True, None)
         got = labels_vec(o)
         if not okc:
             ctx.violation('Louvain._post_processing', 'np.argsort answer does not sort the negated cluster sizes the model expects', case=args,
                           observed=o['argsort'], check='correspondence')
             continue
-        if list(model) != got:
+        if model is not None and list(model) != got:
             ctx.violation('Louvain._post_processing', 'labels differ from the model (sort / un-shuffle)', case=args,
                           expected=list(model), observed=got, check='correspondence')
             continue
@@ -349,10 +358,12 @@ def check_secondary(ctx, site, items, tag, extra=None):
     items = [masked(it) for it in items]
     nb = [it for it in items if not it[5] and (it[1].get('probs') is not None or it[1].get('aggregate') is not None)]
     bp = [it for it in items if it[5] and (it[1].get('probs_row') is not None or it[1].get('aggregate') is not None)]
+    # the recomputation is done by the model inside Coq: skipped (and recorded) when the model no longer evaluates; rows of probs_
+    # and the block sums of aggregate_ are judged independently by oracle_fit for the fitted estimators
     if nb:
-        vals = coq_eval('c05sec' + tag, IMPORTS, ['secondary_red %s %s' % (mat_lit(nr, nc, t), zlist(o['labels']['v']))
-                                                 for (_, o, nr, nc, t, _) in nb])
-        for (args, o, nr, nc, t, _), v in zip(nb, vals):
+        vals = safe_coq_eval(ctx, 'c05sec' + tag, IMPORTS, ['secondary_red %s %s' % (mat_lit(nr, nc, t), zlist(o['labels']['v']))
+                                                            for (_, o, nr, nc, t, _) in nb])
+        for (args, o, nr, nc, t, _), v in zip(nb, vals or []):
             ctx.count('secondary:adjacency', ('sec', tag, args), True)
             if v[0] != 'Ok':
                 ctx.violation(site, 'model cannot recompute the secondary outputs from the reported labels', case=args,
@@ -367,10 +378,10 @@ def check_secondary(ctx, site, items, tag, extra=None):
                 ctx.violation(site, 'aggregate_ differs from M^T A M', case=args, labels=o['labels']['v'], expected=G,
                               observed=o['aggregate'], check='aggregate_correspondence', **(extra or {}))
     if bp:
-        vals = coq_eval('c05secb' + tag, IMPORTS, ['secondary_bip_red %s %s %s' % (mat_lit(nr, nc, t), zlist(o['labels_row']['v']),
-                                                                                   zlist(o['labels_col']['v']))
-                                                  for (_, o, nr, nc, t, _) in bp])
-        for (args, o, nr, nc, t, _), v in zip(bp, vals):
+        vals = safe_coq_eval(ctx, 'c05secb' + tag, IMPORTS,
+                             ['secondary_bip_red %s %s %s' % (mat_lit(nr, nc, t), zlist(o['labels_row']['v']), zlist(o['labels_col']['v']))
+                              for (_, o, nr, nc, t, _) in bp])
+        for (args, o, nr, nc, t, _), v in zip(bp, vals or []):
             ctx.count('secondary:biadjacency', ('secb', tag, args), True)
             if v[0] != 'Ok':
                 ctx.violation(site, 'model cannot recompute the secondary outputs from the reported labels', case=args,
@@ -454,8 +465,10 @@ def part_levels(ctx, impl, rng, quick):
         exprs.append('louvain_labels (fun _ => %s) %s %s %s %d %d %s (map (fun l => map Z.of_nat (snd (unique_inverse l))) %s)' %
                      (nlist(perm), cbool(opts['sort_clusters']), cbool(opts['shuffle_nodes']), cbool(bip), n, nr,
                       nlist(index), clist(chain, zlist)))
-    vals = coq_eval('c05levels', IMPORTS, exprs)
+    vals = model_vals(ctx, 'c05levels', exprs)
     for (args, o, n, nr, bip), v in zip(cases, vals):
+        if v is None:
+            continue      # model dead: this part is a pure model-vs-code comparison
         if v[0] != 'Ok':
             ctx.violation(SITE[args['algo']], 'model rejects a level chain the implementation accepted', case=args, observed=o,
                           check='correspondence', stage='levels')
@@ -503,13 +516,16 @@ def part_propagation(ctx, impl, rng, quick):
         keys = ('(map (fun c => (- Z.of_nat c)%%Z) (unique_counts (map Z.of_nat (snd (unique_inverse %s)))))' % zlist(args['raw'])) if srt else '[]'
         exprs.append('(argsort_ok_b %s %s, propagation_labels (fun _ => %s) %s %s %d %s)' %
                      (keys, nlist(perm), nlist(perm), cbool(srt), cbool(bip), nr, zlist(args['raw'])))
-    vals = coq_eval('c05ppost', IMPORTS, exprs)
+    vals = model_vals(ctx, 'c05ppost', exprs)
     sec = []
     for (args, o, nr, nc, t, bip), v in zip(cases, vals):
-        okc, (lab, split) = v
         srt = args['options']['sort_clusters']
         got = labels_vec(o) if bip else o['labels']['v']
-        allv = list(lab) if split is None else list(split[1][0]) + list(split[1][1])
+        if v is None:       # model dead: no model comparison, the independent statement below still applies
+            okc, allv = True, got
+        else:
+            okc, (lab, split) = v
+            allv = list(lab) if split is None else list(split[1][0]) + list(split[1][1])
         if srt and not okc:
             # sort_clusters requested and no np.argsort answer sorting the negated sizes: the sort is missing or altered
             ok, cnt = sizes_sorted(got) if got else (True, [])
@@ -520,7 +536,7 @@ def part_propagation(ctx, impl, rng, quick):
                 ctx.violation(site, 'np.argsort is not applied to the negated cluster sizes the model expects', case=args, observed=o['argsort'],
                               check='correspondence', stage='prescribed')
             continue
-        if allv != got or o['bipartite'] != bip:
+        if allv != got or (v is not None and o['bipartite'] != bip):
             ctx.violation(site, 'labels differ from the model of compaction + sort + split', case=args, expected=allv, observed=got,
                           check='correspondence', stage='prescribed')
             continue
@@ -564,14 +580,14 @@ def part_kcinit(ctx, impl, rng, quick):
         table = clist(o['scores'], lambda s: clist(s, lambda x: cq(fr(x))))
         exprs.append('init_centers %s %d (fun cs => nth (length cs - 1) %s []) (fun step _ => nth step %s 0)' %
                      (clist(args['mask'], cbool), args['k'], table, nlist(picks)))
-    vals = coq_eval('c05kcinit', IMPORTS, exprs)
+    vals = model_vals(ctx, 'c05kcinit', exprs)
     for (args, o), v in zip(cases, vals):
         for ch in o['choices']:
             if ch['pick'] not in ch['cands']:
                 ctx.violation('np.random.choice', 'oracle answer outside its contract', case=ch, check='oracle_contract')
-        exp = None if v[0] != 'Ok' else {'centers': list(v[1][0]), 'cands': [list(c) for c in v[1][1]]}
+        exp = None if (v is None or v[0] != 'Ok') else {'centers': list(v[1][0]), 'cands': [list(c) for c in v[1][1]]}
         got = {'centers': o['centers'], 'cands': [ch['cands'] for ch in o['choices']]}
-        if exp != got:
+        if v is not None and exp != got:
             ctx.violation('KCenters._init_centers', 'centers / candidate arrays differ from the model', case=args, expected=exp,
                           observed=got, check='correspondence')
         cs = o['centers']
